@@ -54,9 +54,14 @@ pub fn idiv(left: &BigInt, right: &BigInt, field: &BigInt) -> Result<BigInt, Ari
     }
 }
 pub fn mod_op(left: &BigInt, right: &BigInt, field: &BigInt) -> Result<BigInt, ArithmeticError> {
+    let zero = BigInt::from(0);
     let left = modulus(left, field);
     let right = modulus(right, field);
-    Ok(modulus(&left, &right))
+    if right == zero {
+        Err(ArithmeticError::DivisionByZero)
+    } else {
+        Ok(modulus(&left, &right))
+    }
 }
 pub fn pow(base: &BigInt, exp: &BigInt, field: &BigInt) -> BigInt {
     base.modpow(exp, field)
